@@ -1363,6 +1363,25 @@ mod vtrace {
             static RNG: Cell<u64> = const { Cell::new(0x9e3779b97f4a7c15) };
         }
         static ON: AtomicBool = AtomicBool::new(false);
+        /// Package C07t (case parameter `tt=1`, kinds mtbdd / mtbddf): the events of the dynamic terminal
+        /// manager (hook sites 19..27) and the collector's phase events (pre_gc, bucket runs, sweep begin,
+        /// post_gc, end) are logged for the WHOLE case, also outside parallel blocks; outside the blocks
+        /// the lines are written out after every operation (`drain`)
+        static SEQ: AtomicBool = AtomicBool::new(false);
+        static NEXT_UID: AtomicU64 = AtomicU64::new(0);
+        thread_local! {
+            /// a number per OS thread (the thread field of the terminal events; `TID` is 99 for
+            /// every thread that is not a thread of a parallel block)
+            static UID: Cell<u64> = const { Cell::new(u64::MAX) };
+        }
+        fn uid() -> u64 {
+            UID.with(|u| {
+                if u.get() == u64::MAX {
+                    u.set(NEXT_UID.fetch_add(1, Relaxed));
+                }
+                u.get()
+            })
+        }
         static PERMILLE: AtomicU64 = AtomicU64::new(0);
         /// The event log.  `pending` = a run of consecutive apply-cache buckets the collector has
         /// locked (`L`) / is unlocking (`U`): (kind, thread, address of the first bucket, count); it is
@@ -1457,11 +1476,50 @@ mod vtrace {
                 crate::atrace::event(s, data);
                 return;
             }
-            if !ON.load(Relaxed) {
-                return;
+            let on = ON.load(Relaxed);
+            if !on {
+                if !SEQ.load(Relaxed) {
+                    return;
+                }
+                // C07t, outside a parallel block: terminal events and the collector's phases only
+                match s {
+                    19..=27
+                    | site::CACHE_BUCKET_LOCK
+                    | site::CACHE_PRE_GC
+                    | site::CACHE_PRE_GC_BUCKET
+                    | site::CACHE_POST_GC_BUCKET
+                    | site::GC_BEGIN
+                    | site::GC_END => {}
+                    _ => return,
+                }
             }
             COUNTS[(s as usize).min(31)].fetch_add(1, Relaxed);
             match s {
+                // ---- dynamic terminal manager (C07t): `EV T<e> <thread> <data>`; found / new / oom / the
+                // iterator item / the collector's events are reported with the terminal manager's state
+                // mutex held, the increment after `fetch_add`, the decrement before `fetch_sub`
+                19..=27 => {
+                    let name = match s {
+                        19 => "TF",
+                        20 => "TN",
+                        21 => "TO",
+                        22 => "TR",
+                        23 => "TD",
+                        24 => "TB",
+                        25 => "TX",
+                        26 => "TE",
+                        _ => "TI",
+                    };
+                    let mut e = format!("EV {name} {}", uid());
+                    for d in data {
+                        e.push(' ');
+                        e.push_str(&d.to_string());
+                    }
+                    LOG.lock().unwrap().push(e);
+                    if s != 23 {
+                        return; // (perturbation only where no lock is held: before a decrement)
+                    }
+                }
                 site::GOI_LEVEL => LEVEL.with(|l| l.set(data[0])),
                 site::GOI_FOUND | site::GOI_NEW => {
                     // the level mutex is held: the order of these entries is the order in which the
@@ -1536,7 +1594,7 @@ mod vtrace {
             }
             // schedule perturbation (never while the event is being logged; not at the collector's
             // per-bucket events: there are millions of them)
-            let p = PERMILLE.load(Relaxed);
+            let p = if on { PERMILLE.load(Relaxed) } else { 0 };
             if p > 0
                 && s != site::GOI_FOUND
                 && s != site::GOI_NEW
@@ -1590,6 +1648,44 @@ mod vtrace {
         pub fn enter_thread(ti: usize, seed: u64) {
             TID.with(|t| t.set(ti));
             RNG.with(|r| r.set((seed ^ ((ti as u64 + 1) * 0x9e3779b97f4a7c15)) | 1));
+        }
+        /// C07t: `tt=1` switches the whole-case log of the terminal manager on (off otherwise)
+        pub fn seq_set(on: bool) {
+            if on {
+                install();
+                let mut log = LOG.lock().unwrap();
+                log.lines.clear();
+                log.pending = None;
+                log.geom = None;
+            }
+            SEQ.store(on, Relaxed);
+        }
+        /// C07t: the lines logged since the last call (outside parallel blocks)
+        pub fn drain() -> Vec<String> {
+            if !SEQ.load(Relaxed) {
+                return Vec::new();
+            }
+            let (mut v, geom) = {
+                let mut log = LOG.lock().unwrap();
+                log.flush();
+                (std::mem::take(&mut log.lines), log.geom)
+            };
+            // (every bucket run follows the CACHE_PRE_GC event of its collection: the geometry is known)
+            for l in v.iter_mut() {
+                if l.starts_with("EV C") && l.contains('@') {
+                    let toks: Vec<String> = l
+                        .split(' ')
+                        .map(|t| match (t.strip_prefix('@'), geom) {
+                            (Some(a), Some((base, _, stride))) => {
+                                (a.parse::<usize>().unwrap().wrapping_sub(base) / stride.max(1)).to_string()
+                            }
+                            _ => t.to_string(),
+                        })
+                        .collect();
+                    *l = toks.join(" ");
+                }
+            }
+            v
         }
         pub fn end() -> Vec<String> {
             ON.store(false, Relaxed);
@@ -1646,6 +1742,10 @@ mod vtrace {
         pub fn begin(_seed: u64, _permille: u64) {}
         pub fn set_rendezvous(_permille: u64) {}
         pub fn set_gc_yield(_permille: u64) {}
+        pub fn seq_set(_on: bool) {}
+        pub fn drain() -> Vec<String> {
+            Vec::new()
+        }
         pub fn enter_thread(_ti: usize, _seed: u64) {}
         pub fn end() -> Vec<String> {
             Vec::new()
@@ -1817,6 +1917,8 @@ mod mt {
         let cache = case.param_u64("cache", 1 << 12) as usize;
         let threads = case.param_u64("threads", 1) as u32;
         let snap_each = case.param("snap") == Some("each");
+        // C07t: tt=1 logs the terminal manager's events of the whole case (hooks build only)
+        vtrace::seq_set(case.param("tt") == Some("1"));
         let mref = oxidd::mtbdd::new_manager::<T>(cap, tcap, cache, threads);
         let mut core: Core<Fun<T>> = Core { mref, slots: BTreeMap::new() };
         let gcall = case.param("gcall") == Some("1");
@@ -1971,6 +2073,7 @@ mod mt {
                 run_par_core(&mut core, k, &case.ops[idx..end], case.param_u64("seed", 1) ^ (par_no << 32),
                              case.param_u64("yield", 0), out, &|c, t| exec1(c, t, tcap));
                 atrace::drain().into_iter().for_each(&mut *out);
+                vtrace::drain().into_iter().for_each(&mut *out);
                 idx = end + 1;
                 continue;
             }
@@ -1982,11 +2085,18 @@ mod mt {
                 Err(e) => format!("err {e}"),
             };
             atrace::drain().into_iter().for_each(&mut *out);
+            // (C07t: the terminal events of an operation precede its line; those of a snapshot - the
+            // terminal iterator - precede the SNAP line)
+            vtrace::drain().into_iter().for_each(&mut *out);
             out(format!("{line} -> {res}"));
             if snap_each && tok[0] != "SNAP" {
-                out(format!("SNAP -> {}", core.snapshot(&[], &|t: &T| t.show())));
+                let snap = core.snapshot(&[], &|t: &T| t.show());
+                vtrace::drain().into_iter().for_each(&mut *out);
+                out(format!("SNAP -> {snap}"));
             }
         }
+        // (the handles and the manager die here: their events belong to no snapshot)
+        vtrace::seq_set(false);
     }
         };
     }
@@ -2290,6 +2400,7 @@ fn main() {
                 let cache = case.param_u64("cache", 1 << 12) as usize;
                 let threads = case.param_u64("threads", 1) as u32;
                 vtrace::set_gc_yield(case.param_u64("gcyield", 0));
+                vtrace::seq_set(false);
                 ADDVARS_MODE.store(
                     match case.param("addvars") {
                         Some("named") => 1,
